@@ -63,6 +63,7 @@ class Ctx:
         self.violations: list = []  # dicts {key, what, witness}
         self.viol_counts: Counter = Counter()
         self.requirements: list = []  # (counter name, minimum)
+        self.forbidden: list = []  # counters that must stay 0, else inconclusive (oracle disagreement)
         self.exhaustive: dict = {}
         self.notes: dict = {}
         self.t0 = time.time()
@@ -107,6 +108,10 @@ class Ctx:
     def require(self, name: str, minimum: int = 1):
         self.requirements.append((name, minimum))
 
+    def forbid(self, name: str):
+        if name not in self.forbidden:
+            self.forbidden.append(name)
+
     def violation(self, key: str, what: str, witness):
         self.viol_counts[key] += 1
         if self.viol_counts[key] <= MAX_WITNESS_PER_KEY:
@@ -123,6 +128,7 @@ class Ctx:
             "violations": self.violations,
             "viol_counts": dict(self.viol_counts),
             "requirements": self.requirements,
+            "forbidden": self.forbidden,
             "exhaustive": self.exhaustive,
             "notes": self.notes,
         }
@@ -145,6 +151,8 @@ class Ctx:
             r = tuple(r)
             if r not in self.requirements:
                 self.requirements.append(r)
+        for n in p.get("forbidden", []):
+            self.forbid(n)
         for k, v in p["exhaustive"].items():
             # a sharded enumeration is exhaustive only if every shard completed its slice
             self.exhaustive[k] = self.exhaustive.get(k, True) and v
@@ -192,6 +200,11 @@ def finish(ctx: Ctx, mod, inconclusive_reason: str | None = None) -> int:
         for name, minimum in ctx.requirements:
             if ctx.counters.get(name, 0) < minimum:
                 inconclusive_reason = f"monitor '{name}' evaluated {ctx.counters.get(name, 0)} < {minimum} times"
+                break
+    if inconclusive_reason is None:
+        for name in ctx.forbidden:
+            if ctx.counters.get(name, 0):
+                inconclusive_reason = f"independent oracles disagreed with each other: '{name}' = {ctx.counters[name]}"
                 break
     if inconclusive_reason is None and ctx.counters.get("oracle_errors", 0):
         inconclusive_reason = "an oracle raised %d times (harness bug)" % ctx.counters["oracle_errors"]
